@@ -402,3 +402,37 @@ def consumer(ctx, fb):
                         if holds_eq and has_dtype and has_to:
                             ok = True
     ctx.inst(R, 'cast-elimination-guard', ok and n >= 1, 'CastElimination yields Fusion::Identity only under `inferred input dtype == ValueType::Tensor(cast.to)`', f.loc())
+
+
+    # ---- the consumer of output_types pairs the declared types with the operator's output ids *positionally*: an unused
+    # optional output (id None) still occupies its position, so the id side of the zip must be output_ids().iter() itself,
+    # without an adapter that drops or reorders entries (flatten / filter / skip / rev ...)
+    g = fb.fn('rten::infer_shapes::infer_shapes')
+    if not ctx.anchor(R, 'infer_shapes', g is not None and g.has_mir()):
+        return
+    TRANSPARENT = r'core::slice::<impl \[T\]>::iter$|IntoIterator>::into_iter$|Deref>::deref$|Iterator::enumerate$'
+    nz = 0
+    for c in g.calls():
+        if not re.search(r'Iterator::zip$', c.callee or ''):
+            continue
+        if not any(o[0] == 'call' and re.search(r'OperatorNode::output_ids$', o[1] or '') for o in g.origins(c.args[0])):
+            continue
+        nz += 1
+        other = 'declared output types' if any(o[0] == 'call' and re.search(r'Operator::output_types$', o[1] or '') for o in g.origins(c.args[1])) else 'inferred output shapes'
+        cur, chain, ok = c.args[0], [], False
+        for _ in range(6):
+            r = g.resolve_copy(cur)
+            if r[0] != 'call':
+                break
+            cal = r[1].callee or ''
+            chain.append(cal.split('::')[-1] if '>::' not in cal else cal.split('>::')[-1])
+            if re.search(r'OperatorNode::output_ids$', cal):
+                ok = True
+                break
+            if not re.search(TRANSPARENT, cal) or not r[1].args:
+                break
+            cur = r[1].args[0]
+        ctx.inst(R, 'positional-pairing:' + other.replace(' ', '-'), ok,
+                 'output ids are paired with the %s by position: zip(output_ids().iter(), ..) with no dropping/reordering adapter (chain: %s)' % (other, ' <- '.join(chain)) if ok else
+                 'the id side of the zip with the %s passes through `%s` before output_ids(): entries are dropped or reordered, so after an unused optional output every later output is labelled with its predecessor\'s type/shape' % (other, chain[-1] if chain else '?'), c.loc())
+    ctx.floor(R, 'zips over output ids in infer_shapes', nz, 2)
